@@ -23,11 +23,11 @@ Definition unctl {S : Type} (c : ctl S S) : S := match c with Fall s => s | Retu
 
 (* the loop of Map.next against i_next: same outcome; the loop ends by "return p"
    ([Return]) or by "break" ([Fall]) with the same state *)
-Definition nx_rel (vs : gomap) (lst : Z) (r : res (core * nat))
+Definition nx_rel (lg : list Z) (vs : gomap) (lst : Z) (r : res (core * nat))
     (o : outcome (ctl (Gen.Map * Z) (Gen.Map * Z) * heap)) : Prop :=
   match r with
   | IMapBase.Ok (c', p') =>
-      exists c, o = Ok (c, gheap (snd c') (fst (fst c'))) /\
+      exists c, o = Ok (c, gheap lg (snd c') (fst (fst c'))) /\
                 unctl c = (gm vs (snd (fst c')) lst, ptr p')
   | IMapBase.Panic => o = GoPanic
   | IMapBase.NoFuel => True
@@ -39,13 +39,15 @@ Ltac gm_cbn :=
 
 Section Walk.
 
+Variable lg : list Z.   (* the log array: untouched by the map code *)
+
 Variable pool_Put : Z -> Z -> M unit.
 Hypothesis Hput : put_spec pool_Put.
 
 Ltac im_put :=
   match goal with
-  | |- context [bind (pool_Put 0 (ptr ?x)) ?k (gheap ?pl ?H)] =>
-      rewrite (bind_ok (pool_Put 0 (ptr x)) k (gheap pl H) tt _ (Hput pl H x))
+  | |- context [bind (pool_Put 0 (ptr ?x)) ?k (gheap ?lg0 ?pl ?H)] =>
+      rewrite (bind_ok (pool_Put 0 (ptr x)) k (gheap lg0 pl H) tt _ (Hput lg0 pl H x))
   end.
 
 Lemma two62 : 2 ^ 62 = 4611686018427387904. Proof. reflexivity. Qed.
@@ -55,8 +57,8 @@ Lemma two62 : 2 ^ 62 = 4611686018427387904. Proof. reflexivity. Qed.
 Lemma gen_next_loop : forall f gf vs lst mh hd pl p lo hi,
   (f <= gf)%nat -> cwf (mh, hd, pl) -> (p < length mh)%nat -> rng2 lo hi p mh ->
   - 2 ^ 62 <= lo -> hi <= 2 ^ 62 ->
-  nx_rel vs lst (i_next f (mh, hd, pl) p)
-    (iter gf (Gen.Map_next_loop1 pool_Put) (gm vs hd lst, ptr p) (gheap pl mh)).
+  nx_rel lg vs lst (i_next f (mh, hd, pl) p)
+    (iter gf (Gen.Map_next_loop1 pool_Put) (gm vs hd lst, ptr p) (gheap lg pl mh)).
 Proof.
   rewrite two62.
   induction f as [|f IH]; intros gf vs lst mh hd pl p lo hi Hf (C & Hhd & Hpl) Hp R Hlo Hhi; [exact I|].
@@ -86,7 +88,7 @@ Proof.
   - (* drop the node *)
     set (h1 := upd mh p (set_ref (n_ref (nd mh p) - 1))) in *.
     assert (L1 : length h1 = length mh) by apply length_upd.
-    pose proof (gen_delete_refines pl h1 p C1 ltac:(rewrite L1; exact Hp)) as Ed.
+    pose proof (gen_delete_refines lg pl h1 p C1 ltac:(rewrite L1; exact Hp)) as Ed.
     call_with Ed.
     destruct (n_delete h1 p) as [[h2 nh]| |] eqn:Edm; cbn [lift IMapBase.bind fst snd nx_rel]; [|reflexivity|exact I].
     destruct (n_delete_pres h1 p h2 nh C1 ltac:(rewrite L1; exact Hp) Edm) as [[C2 S2] Inh].
@@ -127,7 +129,7 @@ Qed.
 (* a walking function of the map against its model: same outcome, same pointer, the record with the model's head *)
 Definition wk_rel (vs : gomap) (lst : Z) (r : res (core * nat)) (o : outcome ((Gen.Map * Z) * heap)) : Prop :=
   match r with
-  | IMapBase.Ok (c', p') => o = Ok ((gm vs (snd (fst c')) lst, ptr p'), gheap (snd c') (fst (fst c')))
+  | IMapBase.Ok (c', p') => o = Ok ((gm vs (snd (fst c')) lst, ptr p'), gheap lg (snd c') (fst (fst c')))
   | IMapBase.Panic => o = GoPanic
   | IMapBase.NoFuel => True
   end.
@@ -135,10 +137,10 @@ Definition wk_rel (vs : gomap) (lst : Z) (r : res (core * nat)) (o : outcome ((G
 Theorem gen_next_refines vs lst mh hd pl p lo hi :
   cwf (mh, hd, pl) -> (p < length mh)%nat -> rng2 lo hi p mh -> - 2 ^ 62 <= lo -> hi <= 2 ^ 62 ->
   wk_rel vs lst (i_next (fuel_of mh) (mh, hd, pl) p)
-    (Gen.Map_next pool_Put (gm vs hd lst) (ptr p) (gheap pl mh)).
+    (Gen.Map_next pool_Put (gm vs hd lst) (ptr p) (gheap lg pl mh)).
 Proof.
   intros W Hp R Hlo Hhi.
-  pose proof (gen_next_loop (fuel_of mh) (S (length (gheap pl mh))) vs lst mh hd pl p lo hi
+  pose proof (gen_next_loop (fuel_of mh) (S (length (gheap lg pl mh))) vs lst mh hd pl p lo hi
                 ltac:(rewrite length_gheap; unfold fuel_of; lia) W Hp R Hlo Hhi) as L.
   unfold Gen.Map_next. unfold bind at 1. rewrite iter_objs_eq.
   destruct (i_next (fuel_of mh) (mh, hd, pl) p) as [[c' p']| |]; cbn [nx_rel wk_rel] in *; [| |exact I].
@@ -149,7 +151,7 @@ Qed.
 Theorem gen_getValue_refines vs lst mh hd pl p lo hi :
   cwf (mh, hd, pl) -> (p < length mh)%nat -> rng2 lo hi p mh -> - 2 ^ 62 <= lo -> hi <= 2 ^ 62 ->
   wk_rel vs lst (i_getvalue (mh, hd, pl) p)
-    (Gen.Map_getValue pool_Put (gm vs hd lst) (ptr p) (gheap pl mh)).
+    (Gen.Map_getValue pool_Put (gm vs hd lst) (ptr p) (gheap lg pl mh)).
 Proof.
   intros W Hp R Hlo Hhi. pose proof (gen_next_refines vs lst mh hd pl p lo hi W Hp R Hlo Hhi) as N.
   unfold Gen.Map_getValue, i_getvalue. cbn [fst]. destruct W as (C & Hhd & Hpl).
@@ -161,9 +163,9 @@ Qed.
 
 Theorem gen_release_refines vs lst mh hd pl p B :
   cwf (mh, hd, pl) -> (p < length mh)%nat -> refs_in B mh -> B <= 2 ^ 62 ->
-  Gen.Map_release pool_Put (gm vs hd lst) (ptr p) (gheap pl mh) =
+  Gen.Map_release pool_Put (gm vs hd lst) (ptr p) (gheap lg pl mh) =
   lift (i_release (mh, hd, pl) p)
-       (fun c' => Ok (gm vs (snd (fst c')) lst, gheap (snd c') (fst (fst c')))).
+       (fun c' => Ok (gm vs (snd (fst c')) lst, gheap lg (snd c') (fst (fst c')))).
 Proof.
   rewrite two62. intros (C & Hhd & Hpl) Hp R HB. pose proof (R p Hp) as Rp.
   assert (C1 : closed (upd mh p (set_ref (n_ref (nd mh p) - 1)))) by (apply closed_set_ref; exact C).
@@ -171,7 +173,7 @@ Proof.
   destruct (n_st (nd mh p)) eqn:Es; im_run0; try reflexivity.
   set (h1 := upd mh p (set_ref (n_ref (nd mh p) - 1))) in *.
   assert (L1 : length h1 = length mh) by apply length_upd.
-  pose proof (gen_delete_refines pl h1 p C1 ltac:(rewrite L1; exact Hp)) as Ed. call_with Ed.
+  pose proof (gen_delete_refines lg pl h1 p C1 ltac:(rewrite L1; exact Hp)) as Ed. call_with Ed.
   destruct (n_delete h1 p) as [[h2 nh]| |] eqn:Edm; cbn [lift IMapBase.bind fst snd]; try reflexivity.
   destruct (n_delete_pres h1 p h2 nh C1 ltac:(rewrite L1; exact Hp) Edm) as [[C2 S2] Inh].
   pose proof (proj1 S2) as L2. rewrite L1 in L2.
